@@ -28,6 +28,10 @@ INFO = {
    text="Lean 4 theorems about the deserializer model for ALL byte strings: a length field can never make a read succeed unless that many elements are really present (so a huge length ends in the short-read error), accepted strings are valid UTF-8 of honest length, a loaded Base is in 2..=36, a loaded big integer has at least one limb, a loaded date has year != 0 / month 1..12 / day 1..31; plus a regenerated table (Tie A) proving that no deserializer pre-allocates from a length it has just read. Tied to the Rust by running Context::deserialize_variables on every truncation, byte substitution, extreme length field and random bytes of valid images under a counting allocator and an address-space limit, comparing the ok/error class and the reloaded table with the model, then printing/applying/re-saving every loaded variable.",
    note="Partial: stack depth is runtime truth the model cannot exhibit — recursion depth is linear in the input and a ~10 KB image of nested tags overflows the stack (recorded as KNOWN-FINDING D5, not repaired). 'Loaded context can be evaluated without crashing' is carried by the use-phase of the correspondence run (with an interrupt deadline), not by a theorem. Trusted: Lean kernel + 3 axioms, translator/alloc_sites.py, harness.",
    technique="Lean 4 inversion lemmas over the deserializer model + regenerated allocation-site table + differential fault injection on images", ref="7/C14"),
+ "C13": dict(
+   text="Lean 4 theorems over a model of evaluate_preview_with_interrupt in which the evaluator is an ARBITRARY function (may mutate any context field, fail, or be interrupted): the context after a preview equals the context before it; an evaluator that can reach host callbacks only through the context fields invokes none during a preview; a returned preview is non-empty, not unit-typed, at most 50 bytes, not an echo of the input and free of control characters. The hypothesis 'callbacks only via context' is pinned to the source by a regenerated table of every read of random_u32 / get_exchange_rate (Tie A). Tied to the Rust by previewing every prefix of generated inputs on contexts built from all flag combinations, uninterrupted and with interrupts fired at several call counts, with counting rng / exchange-rate callbacks and before/after probes.",
+   note="Trusted: Lean kernel + 3 axioms; translator/callback_sites.py (regex scan of function bodies); the harness's probe set as the observable state of a Context (variables, _/ans, separator style, C/F mode, custom units, handlers).",
+   technique="Lean 4 proof parametric in the evaluator + regenerated callback-site table + differential correspondence", ref="7/C13"),
 }
 def main():
     hooks = subprocess.check_output("git -C /repo log --format=%H --grep='verif-hooks' --grep='verif hooks' -i", shell=True, text=True).split()
